@@ -30,6 +30,36 @@ CORPUS_DIR = os.path.join(VERIF, "corpus")
 KNOWN_FILE = os.path.join(VERIF, "known_findings.txt")
 
 
+def fingerprint_files(files: List[str]) -> Dict[str, str]:
+    """sha1 of the normalised AST (no positions, no docstrings) of each anchored source file of REPO."""
+    import ast
+
+    out = {}
+    for f in files:
+        path = os.path.join(REPO, f)
+        try:
+            tree = ast.parse(open(path).read())
+            for node in ast.walk(tree):
+                body = getattr(node, "body", None)
+                if isinstance(body, list) and body and isinstance(body[0], ast.Expr) and isinstance(getattr(body[0], "value", None), ast.Constant) \
+                        and isinstance(body[0].value.value, str):
+                    body.pop(0)
+            out[f] = hashlib.sha1(ast.dump(tree, include_attributes=False).encode()).hexdigest()[:16]
+        except Exception as e:  # unreadable / syntax error: counts as changed
+            out[f] = "error:" + type(e).__name__
+    return out
+
+
+def anchors_changed(prop: str) -> List[str]:
+    """Anchored files of `prop` whose fingerprint differs from the committed baseline."""
+    try:
+        base = json.load(open(os.path.join(VERIF, "fingerprints.json"))).get(prop, {})
+    except Exception:
+        return []
+    cur = fingerprint_files(list(base))
+    return [f for f in base if cur.get(f) != base[f]]
+
+
 def canon(obj: Any) -> str:
     return json.dumps(obj, sort_keys=True, default=repr, separators=(",", ":"))
 
